@@ -1067,9 +1067,15 @@ func (ce *commandEncoder) end() {
 // commandEncoder.end to release the lock.
 func (ce *commandEncoder) flush() {
 	if err := ce.Encoder.CRLF(); err != nil {
+		// A literal refused by the server only ends this command (which has
+		// been completed with the server's response); any other error means
+		// the connection is broken.
 		// TODO: consider stashing the error in Client to return it in future
 		// calls
-		ce.client.closeWithError(err)
+		var cancelled *imapwire.LiteralCancelledError
+		if !errors.As(err, &cancelled) {
+			ce.client.closeWithError(err)
+		}
 	}
 	ce.Encoder = nil
 }
